@@ -381,6 +381,7 @@ fn worker_main() -> ! {
 	while let Some(frame) = read_frame(&mut input) {
 		let Some(case) = decode_case(&frame) else { break };
 		n += 1;
+		util::throttle_threads();
 		let dir = scratch.join(format!("c{n}"));
 		let _ = std::fs::create_dir_all(&dir);
 		let before = CUR.load(Ordering::Relaxed);
@@ -487,7 +488,14 @@ fn run_in_worker(case: &Case) -> Outcome {
 		if g.is_none() {
 			*g = Some(Worker::spawn());
 		}
-		let out = g.as_mut().unwrap().run(case, TIMEOUT_MS.load(Ordering::Relaxed) as i32);
+		let mut out = g.as_mut().unwrap().run(case, TIMEOUT_MS.load(Ordering::Relaxed) as i32);
+		if let Outcome::Died(_) = out {
+			// A worker that has served thousands of cases can die for reasons of its own (thread or
+			// memory-map exhaustion from lingering connection-pool threads). Only a death that
+			// repeats with the same input in a fresh worker is attributed to the input.
+			*g = Some(Worker::spawn());
+			out = g.as_mut().unwrap().run(case, TIMEOUT_MS.load(Ordering::Relaxed) as i32);
+		}
 		if !matches!(out, Outcome::Reply(_)) {
 			*g = None; // respawn next time
 		}
